@@ -453,7 +453,18 @@ func runSizes(ctx *runner.Ctx, k cs) {
 		}
 		written = max1(val.BitLen())
 	default:
-		written = len(m.Vals) * 8
+		// Set writes one element per byte of a []byte value, whatever the element width
+		written = len(m.Vals) * m.T.Bits
+		if m.T.Bits != 8 {
+			if a[0] != written {
+				ctx.Violate("sizes.text", fmt.Sprintf("InputSizes(%q)=%d, value needs %d", s, a[0], written), k)
+			} else if b[0] != written {
+				ctx.Violate("sizes.govalue.bytes-for-wide-elements", fmt.Sprintf("Sizes(%T %v)=%d, but IOArg.Set writes one %d-bit element per byte: %d bits (the text form %q is sized %d)", v, v, b[0], m.T.Bits, written, s, a[0]), k)
+			} else {
+				ctx.Outcome("sizes-ok/wide-" + m.T.Kind)
+			}
+			return
+		}
 	}
 	if a[0] != written {
 		ctx.Violate("sizes.text", fmt.Sprintf("InputSizes(%q)=%d, value needs %d", s, a[0], written), k)
@@ -705,7 +716,7 @@ func work(ctx *runner.Ctx) {
 							cases = append(cases, cs{Mode: "encode", Members: []Member{m}, Spell: "hex", GoType: "smallest"})
 							if given == n {
 								cases = append(cases, cs{Mode: "result", Members: []Member{m}})
-								if e == 8 && n > 0 {
+								if (e == 8 || (kind == "slice" && elk == "uint" && (e == 16 || e == 64))) && n > 0 {
 									cases = append(cases, cs{Mode: "sizes", Members: []Member{m}, Spell: "hex", GoType: "smallest"})
 								}
 							}
